@@ -12,6 +12,9 @@ use crate::http::Header;
 pub struct FilterBodyAction {
     chain: Vec<FilterBodyActionItem>,
     in_error: bool,
+    // What has been received as long as nothing has been returned: when a filter fails before anything
+    // went out (a body which is not what its content-encoding says), all of it passes through
+    received: Option<Vec<u8>>,
 }
 
 #[derive(Debug)]
@@ -50,12 +53,12 @@ impl FilterBodyAction {
 
         #[cfg(not(feature = "compress"))]
         {
-            return Self { chain, in_error: false };
+            return Self::with_chain(chain);
         }
 
         #[cfg(feature = "compress")]
         if chain.is_empty() {
-            return Self { chain, in_error: false };
+            return Self::with_chain(chain);
         }
 
         #[cfg(feature = "compress")]
@@ -65,7 +68,7 @@ impl FilterBodyAction {
                     chain.insert(0, FilterBodyActionItem::Decode(Box::new(decode)));
                     chain.push(FilterBodyActionItem::Encode(Box::new(encode)));
 
-                    Self { chain, in_error: false }
+                    Self::with_chain(chain)
                 }
                 None => {
                     log::error!(
@@ -73,13 +76,18 @@ impl FilterBodyAction {
                         encoding
                     );
 
-                    Self {
-                        chain: Vec::new(),
-                        in_error: false,
-                    }
+                    Self::with_chain(Vec::new())
                 }
             },
-            None => Self { chain, in_error: false },
+            None => Self::with_chain(chain),
+        }
+    }
+
+    fn with_chain(chain: Vec<FilterBodyActionItem>) -> Self {
+        Self {
+            chain,
+            in_error: false,
+            received: Some(Vec::new()),
         }
     }
 
@@ -98,13 +106,24 @@ impl FilterBodyAction {
             return data;
         }
 
+        if let Some(received) = self.received.as_mut() {
+            received.extend_from_slice(data.as_slice());
+        }
+
         match self.do_filter(data.clone(), unit_trace) {
-            Ok(filtered) => filtered,
+            Ok(filtered) => {
+                if !filtered.is_empty() {
+                    self.received = None;
+                }
+
+                filtered
+            }
             Err(err) => {
                 log::error!("error while filtering: {:?}", err);
                 self.in_error = true;
 
-                data
+                // Nothing was returned yet: give back everything received, not only this chunk
+                self.received.take().unwrap_or(data)
             }
         }
     }
@@ -132,7 +151,8 @@ impl FilterBodyAction {
                 log::error!("error while ending filtering: {}", err);
                 self.in_error = true;
 
-                Vec::new()
+                // Nothing was returned yet: give back everything received
+                self.received.take().unwrap_or_default()
             }
         }
     }
